@@ -1,5 +1,6 @@
 //! e57check - property checks for cry-inc/e57 (property-based testing and fuzzing).
 mod adapt;
+mod alloc;
 mod c01;
 mod c02;
 mod c03;
@@ -8,6 +9,10 @@ mod c05;
 mod simple_model;
 mod c06;
 mod c07;
+mod c08;
+mod c09;
+mod c10;
+mod untrusted;
 mod c11;
 mod c12;
 mod c13;
@@ -17,6 +22,7 @@ mod c16;
 mod c17;
 mod c18;
 mod c19;
+mod c20;
 mod rops;
 mod dev;
 mod gen;
@@ -25,6 +31,9 @@ mod preflight;
 mod prog;
 
 use kit::{run_check, RunOpts, Tier};
+
+#[global_allocator]
+static GLOBAL: alloc::Counting = alloc::Counting;
 
 fn usage() -> ! {
     eprintln!("usage: e57check <C01..C20> <quick|thorough> [--replay FILE] [--cases N] [--threads N] [--strict]");
@@ -48,6 +57,9 @@ fn main() {
         threads: std::thread::available_parallelism().map(|n| n.get()).unwrap_or(8).min(16),
         budget_override: None,
         strict: false,
+        worker: None,
+        inner: false,
+        shrink_file: None,
     };
     let mut i = if id == "c07-digest" { args.len() } else { 2 };
     while i < args.len() {
@@ -67,6 +79,18 @@ fn main() {
                 opts.threads = args.get(i).and_then(|s| s.parse().ok()).unwrap_or(1);
             }
             "--strict" => opts.strict = true,
+            "--inner" => opts.inner = true,
+            "--worker" => {
+                let a = args.get(i + 1).and_then(|s| s.parse().ok()).unwrap_or(0);
+                let b = args.get(i + 2).and_then(|s| s.parse().ok()).unwrap_or(1);
+                let c = args.get(i + 3).and_then(|s| s.parse().ok()).unwrap_or(0);
+                opts.worker = Some((a, b, c));
+                i += 3;
+            }
+            "--shrink" => {
+                i += 1;
+                opts.shrink_file = Some(args.get(i).unwrap_or_else(|| usage()).into());
+            }
             _ => usage(),
         }
         i += 1;
@@ -80,6 +104,9 @@ fn main() {
         "C04" => run_check::<c04::C04>(&opts),
         "C05" => run_check::<c05::C05>(&opts),
         "C06" => run_check::<c06::C06>(&opts),
+        "C08" => run_check::<c08::C08>(&opts),
+        "C09" => run_check::<c09::C09>(&opts),
+        "C10" => run_check::<c10::C10>(&opts),
         "C11" => run_check::<c11::C11>(&opts),
         "C12" => run_check::<c12::C12>(&opts),
         "C13" => run_check::<c13::C13>(&opts),
@@ -96,6 +123,7 @@ fn main() {
         }
         "C18" => run_check::<c18::C18>(&opts),
         "C19" => run_check::<c19::C19>(&opts),
+        "C20" => run_check::<c20::C20>(&opts),
         "preflight" => match preflight::decoder_preflight() {
             Ok(()) => {
                 println!("preflight ok");
